@@ -132,6 +132,65 @@ struct Model {
     evicted: BTreeSet<(usize, i64)>,
 }
 
+/// Mirror of the KNOWN-DEFECTIVE expiry semantics (finding "high-water expiry"): periodic expiry
+/// at the newest event's time instead of relative to the arriving event. Used ONLY to decide
+/// whether a disagreement with the reference model is exactly what that known defect produces;
+/// anything that also differs from this mirror is reported under its own signature.
+#[derive(Default)]
+struct HighWaterMirror {
+    buf: BTreeMap<(usize, i64), Vec<(i64, i64)>>, // (source,key) -> (uid, ts) in arrival order
+    queue: Vec<(i64, usize, i64)>,                // (expiry ts, source, key)
+    last_gc: Option<i64>,
+}
+
+impl HighWaterMirror {
+    fn arrive(&mut self, c: &Case, g: &GEv) -> Option<Vec<i64>> {
+        let s0 = c.src_of(g);
+        let gc_interval = (c.window / 10).clamp(10, 1000);
+        let run_gc = match self.last_gc {
+            Some(l) => g.ts - l >= gc_interval,
+            None => true,
+        };
+        if run_gc {
+            self.last_gc = Some(g.ts);
+            let cutoff = g.ts - c.window;
+            let mut rest = vec![];
+            for (exp, s, k) in self.queue.drain(..) {
+                if exp <= g.ts {
+                    let empty = match self.buf.get_mut(&(s, k)) {
+                        Some(v) => {
+                            v.retain(|(_, t)| *t >= cutoff);
+                            v.is_empty()
+                        }
+                        None => false,
+                    };
+                    if empty {
+                        self.buf.remove(&(s, k));
+                    }
+                } else {
+                    rest.push((exp, s, k));
+                }
+            }
+            self.queue = rest;
+        }
+        let b = self.buf.entry((s0, g.key)).or_default();
+        while b.len() >= c.cap {
+            b.remove(0);
+        }
+        b.push((g.uid, g.ts));
+        self.queue.push((g.ts + c.window, s0, g.key));
+        let cutoff = g.ts - c.window;
+        let mut out = vec![];
+        for s in 0..c.arity {
+            match self.buf.get(&(s, g.key)).and_then(|v| v.iter().rev().find(|(_, t)| *t >= cutoff)) {
+                Some((u, _)) => out.push(*u),
+                None => return None,
+            }
+        }
+        Some(out)
+    }
+}
+
 struct Step {
     expected: Option<Vec<i64>>,
     /// per source: in-window retained candidates (uid, ts) in arrival order
@@ -182,6 +241,7 @@ fn check_case(c: &Case, rt: &tokio::runtime::Runtime, out: &mut Partial) {
         }
     };
     let mut m = Model::default();
+    let mut mirror = HighWaterMirror::default();
     let mut seen_sigs: BTreeSet<String> = BTreeSet::new();
     let mut hw_expirable_seen: BTreeSet<i64> = BTreeSet::new();
     let mut hw = i64::MIN;
@@ -190,6 +250,7 @@ fn check_case(c: &Case, rt: &tokio::runtime::Runtime, out: &mut Partial) {
     let mut outputs = 0u64;
     for (i, g) in c.evs.iter().enumerate() {
         let step = m.arrive(c, g);
+        let mirror_out = mirror.arrive(c, g);
         {
             // did the model retain (for this key) an event that the high-water expiry would drop?
             let hw_now = if hw == i64::MIN { g.ts } else { hw.max(g.ts) };
@@ -238,7 +299,9 @@ fn check_case(c: &Case, rt: &tokio::runtime::Runtime, out: &mut Partial) {
         // ... or, with a small per-key cap, an earlier high-water expiry left the real buffer shorter
         // than the model's, so the cap evicted different events afterwards.
         let cap_feature_b = (0..c.arity).any(|s| m.evicted.contains(&(s, g.key))) && hw_expirable_seen.contains(&g.key);
-        let explained_b = !ordered && (late_feature || cap_feature_b);
+        // exact test: the observation is what the mirror of the known-defective expiry produces
+        let _ = (late_feature, cap_feature_b);
+        let explained_b = !ordered && got_flat == mirror_out;
         let sig = if explained_b {
             format!("{}/high-water-expiry/late-arrival", base)
         } else {
